@@ -117,7 +117,7 @@ func BoundedUpdateCompare(in string) string {
 	if target < 0 || !regex.RuleRxRegex.MatchString(lines[target]) {
 		return ""
 	}
-	for _, newRegex := range []string{`a|b`, `x\"@rx y\" \z`, `$1${2}`, `x id:123456 y`} {
+	for _, newRegex := range []string{`a|b`, `x\"@rx y\" \z`, `$1${2}`, `x id:123456 y`, ` lead\s+tail `} {
 		p := boundedFile("r.conf", in)
 		updateRegex(p, "123456", 0, newRegex)
 		after, _ := os.ReadFile(p)
